@@ -161,7 +161,8 @@ class Sensor(ABC):
             estimate_eci,
             self.host.datetime_epoch,
         )
-        if self.canSlew(pointing_sez):
+        slewed = self.canSlew(pointing_sez)
+        if slewed:
             # If the sensor can slew to the target, then it does before attempting observations
             self.boresight = pointing_sez[:3] / norm(pointing_sez[:3])
             self.time_last_tasked = self.host.time
@@ -186,7 +187,9 @@ class Sensor(ABC):
             )
 
         # If doing Serendipitous Observations
-        if self.calculate_background:
+        # [NOTE]: a sensor that could not slew never points at `pointing_sez`, so nothing can be in
+        #   the field of view about that pointing.
+        if self.calculate_background and slewed:
             visible_observations = [
                 observation
                 for tgt in background_agents
